@@ -452,7 +452,7 @@ func c16RunWire(b core.Batch, r *core.Recorder) {
 					r.Violation("C16", fmt.Sprintf("C16:wire:panic:%s:%s", frame, abortKindOf(kind)+c16kind(kind)), fmt.Sprintf("%s request made the handler panic: %s", mode, core.Trunc(kind, 160)), cs, core.Trunc(pans[len(pans)-1], 3000))
 					continue
 				}
-				brokenTransfer := map[int]bool{3: true, 4: true, 21: true, 23: true, 24: true}[respIdx] // the origin's own transfer is incomplete or unparseable
+				brokenTransfer := map[int]bool{3: true, 4: true, 21: true, 23: true, 24: true, 27: true}[respIdx] // (27: announces gzip, body is not gzip) // the origin's own transfer is incomplete or unparseable
 				if wellFormedReq && resp.Err != nil {
 					cls := "dropped"
 					if strings.Contains(resp.Err.Error(), "timeout") {
